@@ -244,14 +244,18 @@ def transitions(tz, year):
 
 def gen_datetime(rnd, tz):
     """(naive local datetime, near_transition)"""
-    if rnd.random() < 0.5 and tz not in ('UTC', 'Etc/GMT+12', 'Asia/Kolkata', 'Asia/Kathmandu'):
-        year = rnd.randint(1975, 2090)
+    if rnd.random() < 0.5 and tz not in ('UTC', 'Etc/GMT+12'):
+        # (years before 1970 too: negative timestamps; zones whose only offset changes are historical - Kolkata 1941-45, Kathmandu 1986)
+        year = rnd.choice([rnd.randint(1975, 2090), rnd.randint(1975, 2090), rnd.randint(1900, 1974), rnd.choice([1941, 1942, 1945, 1946, 1986, 1916, 1918, 1966, 1969])])
         trs = transitions(tz, year)
         if trs:
             t = rnd.choice(trs)
             local = t.astimezone(ZoneInfo(tz)).replace(tzinfo=None)
             delta = datetime.timedelta(minutes=rnd.choice([-121, -90, -61, -60, -59, -31, -30, -29, -1, 0, 1, 29, 30, 31, 59, 60, 61, 90, 119]),
                                        seconds=rnd.choice([0, 0, 30, 59]), microseconds=rnd.choice([0, 1000, 999000, 123456]))
+            if rnd.random() < 0.3:
+                # the last second before the change (also one offset change earlier on the wall clock), with a millisecond part
+                delta = datetime.timedelta(minutes=rnd.choice([0, -30, -60, -15, -45]), milliseconds=-rnd.randint(1, 999))
             return local + delta, True
     y = rnd.choice([rnd.randint(100, 9000), rnd.randint(1900, 2100), rnd.randint(1900, 2100)])
     return datetime.datetime(y, rnd.randint(1, 12), rnd.randint(1, 28), rnd.randint(0, 23), rnd.randint(0, 59), rnd.randint(0, 59),
@@ -272,7 +276,7 @@ def gen_new_args(rnd):
     mo = rnd.choice([rnd.randint(-30, 40), rnd.randint(1, 12), 0, 13, 12, 1, -11, 24])
     d = rnd.choice([rnd.randint(-10000, 10000), rnd.randint(1, 28), rnd.randint(-400, 800), 0, 29, 30, 31, 32, 366, 367, 400, -1, 10000, -10000])
     n = rnd.choice([3, 3, 4, 5, 6, 7, 7, 7])
-    rest = [rnd.choice([rnd.randint(-5000, 5000), rnd.randint(0, 59), 0, 24, 60, 1000, -1, 50]) for _ in range(n - 3)]
+    rest = [rnd.choice([rnd.randint(-5000, 5000), rnd.randint(0, 59), 0, 24, 60, 1000, -1, -2, 50]) for _ in range(n - 3)]
     return [y, mo, d] + rest
 
 
@@ -305,6 +309,10 @@ def run_shard(ctx, spec):
             args = gen_new_args(rnd) if rnd.random() < 0.7 else gen_boundary_args(rnd)
             literal = rnd.random() < 0.5
             want = check_new(tz, args, literal)
+            if any(a in (-1, -2) for a in args[1:]):
+                # the same call with -1 and -2 exchanged, in the same process (hash(-1) == hash(-2) in CPython: a table keyed by a hash of the
+                # arguments confuses the two)
+                check_new(tz, [(-3 - a) if a in (-1, -2) and i > 0 else a for i, a in enumerate(args)], literal)
             natural = (1 <= args[1] <= 12 and 1 <= args[2] <= 28 and all(0 <= a < lim for a, lim in zip(args[3:], (24, 60, 60, 1000))))
             ctx.case(digest([tz, args, literal]), not natural, ['new', 'new:' + ('ok' if want else 'null'), 'literal' if literal else 'host-numbers'], {'tz': tz, 'args': args})
         elif family == 'arith':
